@@ -1,4 +1,4 @@
-CONSTANTS Lo = -1
+CONSTANTS Lo <- LoNeg
  Hi = 2
 INIT Init
 NEXT Next
